@@ -688,6 +688,14 @@ func init() {
 				if perr != nil {
 					return fw.Result{Verdict: fw.Skip}
 				}
+				if dk == 0 {
+					// the same Tofu first under another catalogue of the same locale (every message left as it is in the
+					// source): what a render is given belongs to that render
+					other := identityCatalogue(tofuReg)
+					other.locale = bundle.Locale()
+					_, _ = render(tofu, "c11.main", d, nil, other)
+					ctx.Obs("renders_under_another_catalogue_first", 1)
+				}
 				got, gerr := render(tofu, "c11.main", d, nil, bundle)
 				id := ""
 				if nontrivial {
